@@ -463,14 +463,18 @@ func c12R5(c *Ctx, rule string) {
 		return
 	}
 	p := c.P
-	incr := p.Func("internal/multiplex", "Session.streamCountIncr")
-	decr := p.Func("internal/multiplex", "Session.streamCountDecr")
-	if incr == nil || decr == nil {
-		c.Undecided(rule, "anchor streamCountIncr/Decr", "-", "not found")
+	// the counter's events, wherever they are written: through the dedicated helpers or as the atomic operation itself
+	ev := a.counterEvents(p)
+	incrSites, decrSites := ev.sites(p, ev.isIncr), ev.sites(p, ev.isDecr)
+	if len(incrSites) == 0 || len(decrSites) == 0 {
+		c.Undecided(rule, "increments / decrements of activeStreamCount", "-", fmt.Sprintf("found %d / %d", len(incrSites), len(decrSites)))
 		return
 	}
-	// writers of the counter
+	// writers of the counter: atomic ±1 only
 	for _, f := range p.RepoFuncs {
+		if strings.HasSuffix(p.Pos(f.Pos()), "_test.go") {
+			continue
+		}
 		allInstrs(f, func(i ssa.Instruction) {
 			cc := callCommon(i)
 			if cc == nil || len(cc.Args) == 0 {
@@ -483,16 +487,12 @@ func c12R5(c *Ctx, rule string) {
 			if n == "sync/atomic.LoadUint32" {
 				return
 			}
-			ok := (f == incr || f == decr) && n == "sync/atomic.AddUint32"
+			ok := n == "sync/atomic.AddUint32" && len(cc.Args) == 2
 			if ok {
-				k, _ := intConst(cc.Args[1])
-				want := int64(1)
-				if f == decr {
-					want = int64(^uint32(0))
-				}
-				ok = uint32(k) == uint32(want)
+				k, isK := intConst(cc.Args[1])
+				ok = isK && (uint32(k) == 1 || uint32(k) == ^uint32(0))
 			}
-			c.Check(ok, rule, "writer of activeStreamCount in "+shortFn(f), c.at(i), "atomic ±1 in the dedicated helper", "the stream counter is written by "+n+" outside streamCountIncr/Decr or by a step other than ±1")
+			c.Check(ok, rule, "writer of activeStreamCount in "+shortFn(f), c.at(i), "atomic ±1", "the stream counter is written by "+n+" with a step other than ±1 (or not atomically)")
 		})
 	}
 	// live inserts, and for an insert made by a helper that reports it (bool / error result), the helper's outcome
@@ -507,7 +507,7 @@ func c12R5(c *Ctx, rule string) {
 		}
 		inserts = append(inserts, liveInsert{acc, outcomeOfEvent(acc.Fn, acc.Instr)})
 	}
-	for _, cs := range p.CallersOf(incr) {
+	for _, cs := range incrSites {
 		f := cs.Parent()
 		construct := "increment in " + shortFn(f)
 		// a live insert into streams dominates the increment — directly, or through a helper whose reported outcome
@@ -530,7 +530,7 @@ func c12R5(c *Ctx, rule string) {
 	// every live insert is followed by an increment on all paths to a return
 	for _, li := range inserts {
 		acc := li.acc
-		r := mustPass(acc.Instr, func(i ssa.Instruction) bool { return callsFn(i, incr) })
+		r := mustPass(acc.Instr, ev.isIncr)
 		okPair := r == nil
 		if !okPair && li.oc != nil {
 			// the helper reports the insert: every caller increments on every path on which the report is not "no insert"
@@ -542,7 +542,7 @@ func c12R5(c *Ctx, rule string) {
 					okPair = false
 					continue
 				}
-				miss := forwardSearch(call, func(i ssa.Instruction) bool { return callsFn(i, incr) }, func(i ssa.Instruction) bool {
+				miss := forwardSearch(call, ev.isIncr, func(i ssa.Instruction) bool {
 					_, isRet := i.(*ssa.Return)
 					return isRet && li.oc.at(call, i) >= 0
 				})
@@ -553,7 +553,7 @@ func c12R5(c *Ctx, rule string) {
 		}
 		c.Check(okPair, rule, "insert in "+shortFn(p.ownerAnchor(acc.Fn))+" is followed by an increment on every path", c.at(acc.Instr), "streamCountIncr post-dominates the insert", "a stream is registered but on some path the counter is not incremented: the session can time out under a live stream")
 	}
-	for _, cs := range p.CallersOf(decr) {
+	for _, cs := range decrSites {
 		f := cs.Parent()
 		construct := "decrement in " + shortFn(f)
 		won := false
@@ -570,7 +570,7 @@ func c12R5(c *Ctx, rule string) {
 	if cs := p.Func("internal/multiplex", "Session.closeStream"); cs != nil {
 		var dec []ssa.Instruction
 		allInstrs(cs, func(i ssa.Instruction) {
-			if callsFn(i, decr) {
+			if ev.isDecr(i) {
 				dec = append(dec, i)
 			}
 		})
@@ -593,12 +593,11 @@ func c12R6(c *Ctx, rule string) {
 		return
 	}
 	p := c.P
-	cnt := p.Func("internal/multiplex", "Session.streamCount")
-	decr := p.Func("internal/multiplex", "Session.streamCountDecr")
+	ev := a.counterEvents(p)
 	closeF := p.Func("internal/multiplex", "Session.Close")
 	ct := c.need(rule, "internal/multiplex", "Session.checkTimeout")
-	if cnt == nil || decr == nil || closeF == nil || ct == nil {
-		c.Undecided(rule, "anchors streamCount/streamCountDecr/Close/checkTimeout", "-", "not found")
+	if closeF == nil || ct == nil {
+		c.Undecided(rule, "anchors Close/checkTimeout", "-", "not found")
 		return
 	}
 	for _, cl := range callsIn(ct, fnName(closeF)) {
@@ -606,7 +605,7 @@ func c12R6(c *Ctx, rule string) {
 		for _, at := range AtomsAt(cl) {
 			if at.Kind == "cmp" && at.Op == token.EQL {
 				for _, s := range []ssa.Value{at.X, at.Y} {
-					if call, ok := s.(*ssa.Call); ok && call.Call.StaticCallee() == cnt {
+					if ev.isCountRead(s) {
 						if k, isK := intConst(otherSide(at, s)); isK && k == 0 {
 							zero = true
 						}
@@ -627,7 +626,7 @@ func c12R6(c *Ctx, rule string) {
 			for _, at := range AtomsAt(i) {
 				if at.Kind == "cmp" && at.Op == token.EQL {
 					for _, s := range []ssa.Value{at.X, at.Y} {
-						if call, ok := s.(*ssa.Call); ok && call.Call.StaticCallee() == decr {
+						if call, ok := s.(*ssa.Call); ok && ev.isDecr(call) {
 							if k, isK := intConst(otherSide(at, s)); isK && k == 0 {
 								zeroGuard = true
 							}
